@@ -2771,6 +2771,21 @@ pub(crate) fn directed(emit: &mut dyn FnMut(String)) {
         st[4] = req;
         emit(format!("json st {}", sx_line(&st)));
     }
+    // sizes (on every run, whatever the seed): a 1025-frame thread that is also the crashing thread (the
+    // `crashing_thread` copy is as deep), and 257 threads with the crashing thread at index 256 — nothing
+    // may be capped at 1000/1024 entries or counted/indexed in a byte
+    let frame = |i: u64| {
+        L(vec![n(0x1000 + i), none(), L(vec![]), if i % 2 == 0 { s("f") } else { none() }, none(), none(), none(), L(vec![]),
+               tag("frame_pointer"), L(vec![tag("amd64"), n(i), none()])])
+    };
+    let mut st = gen_state(&mut rng, &g);
+    st[5] = L(vec![L(vec![L((0..1025).map(frame).collect()), n(1), none(), none(), tag("ok")])]);
+    st[4] = n(0);
+    emit(format!("json st {}", sx_line(&st)));
+    let mut st = gen_state(&mut rng, &g);
+    st[5] = L((0..257u64).map(|k| L(vec![L(if k == 256 { vec![frame(0), frame(1)] } else { vec![] }), n(k), none(), none(), tag("ok")])).collect());
+    st[4] = n(256);
+    emit(format!("json st {}", sx_line(&st)));
 }
 
 impl Engine for Json {
@@ -2784,11 +2799,13 @@ impl Engine for Json {
          of range; unloaded modules; crash_info with memory_accesses of every MemoryAccessType / guard flag / \
          unknown size, instruction-pointer updates, both adjusted-address kinds, every CrashInconsistency, bit \
          flips; arbitrary soft_errors JSON; deliberate non-well-formed states that must panic in model and code \
-         alike). (2) `json procx …` / `json proc …`: produced by process_minidump from synthesized dumps (crashing \
+         alike; rarely — about 1 thread in 120 — a stack of 64 … 1100 frames, and about 1 state in 250 a crowd of \
+         64 … 300 threads, counted in the distribution as size:…). (2) `json procx …` / `json proc …`: produced by process_minidump from synthesized dumps (crashing \
          instruction from 36 amd64 encodings or random bytes, exception records of Windows/Linux/macOS shape, \
          register values around mapped / guard / null / non-canonical addresses, memory-info regions, \
          lsb-release/limits/maps streams, thread names, modules, overlapping unloaded modules, several threads \
-         with a Breakpad dump thread; MozSoftErrors texts). Compared: print_json(pretty=false) bytes = Lean \
+         with a Breakpad dump thread; a few dumps whose crashing thread's stack is a 300 … 1500-link \
+         frame-pointer chain; MozSoftErrors texts). Compared: print_json(pretty=false) bytes = Lean \
          printJson(alpha(state)) bytes; Lean parser + Conforms + Consistent verdicts on the real bytes; \
          undocumented members and enumeration values; pretty output parses (in Lean and serde_json) to the same \
          value. Oracle on the implementation alone: UTF-8, serde_json parse, counts, frame numbers, \
@@ -2805,7 +2822,8 @@ impl Engine for Json {
               MemoryAccessType x guard x size-known combinations, all 5 CrashInconsistency values (together and \
               alone), adjusted address of each kind, every instruction-pointer-update shape; all 96 \
               BitFlipDetails combinations with the real confidence(); the 36-entry instruction table x {read, \
-              write} access violation through process_minidump"
+              write} access violation through process_minidump; one 1025-frame crashing thread and one state \
+              with 257 threads whose crashing thread has index 256"
             .into())
     }
     fn generate(&self, tier: Tier, rng: &mut Rng, emit: &mut dyn FnMut(String)) {
